@@ -22,7 +22,7 @@ CFG = {
                      "the external sixel decoder (go-sixel) is a parameter: safety of the DCS arm is proved under the hypothesis DecoderTame "
                      "(no panic / unbounded allocation / unbounded loop on a payload that sixelTooLarge lets through), which the C05 stream "
                      "checks on the real library on every generated payload (counter dcs:DECODER-CRASH-WITHIN-LIMIT, note hypothesis_violations)",
-                     "Go int is modelled by unbounded Int: proved sound for 36 of the 51 translated bodies (Props/C05Overflow range_<fn>: every +/- "
+                     "Go int is modelled by unbounded Int: proved sound for 36 of the 66 translated bodies (Props/C05Overflow range_<fn>: every +/- "
                      "stays within 2^62 on every good state with parameters clamped to 0..65535); for print, resize, cht, cbt and the round-3 bodies "
                      "(sgr, osc, modes, decsc/decrc/ris: little or no arithmetic) it still rests on the bounds of the safety lemmas and the correspondence run",
                      "evalBody (the meaning of the translated bodies) fixes loop bounds, vt.width()/height() and the pen at loop entry and treats a "
@@ -34,8 +34,8 @@ CFG = {
                      "the generated fact cutStringSrc, theorem cutString_pinned), the composite literals of decsc/decrc/ris (saved-cursor record, charsets, "
                      "mode reset), the DEC-special translation and single shift of print, screen allocation and saved-cursor clamp of resize",
                      "dispatchers: csi()/esc()/c0() = regenerated table (label, callee, how the parameters are passed) composed with the regenerated "
-                     "body of the callee (csi_is_generated, esc_is_generated, c0_is_generated); the parameter clamp of csi() itself, the inline arms "
-                     "without a callee (replies, charset designations, keypad modes, DECSCUSR, BEL, SO/SI) and update() are hand-transcribed + correspondence",
+                     "body of the callee or of the inline arm (csi_is_generated, esc_is_generated, c0_is_generated); the parameter clamp of csi() itself, the "
+                     "reply-only arms (DA1, DA2, DSR, $p), ESC # 8 (empty), BEL (an event) and update() are hand-transcribed + correspondence",
                      "C05Events: the LTS of the PTY goroutine is tied to the source by the extracted facts eventCap, postEventIsPlainSend, "
                      "loopArms, loopDrainsFirst and validated against the real loop by the C05Events stream"],
     "assumptions": ["terminal sizes between 1x1 and 65535x65535 (winsize fields are uint16; the property starts at 1x1)",
@@ -46,13 +46,13 @@ CFG = {
                   "every OSC payload, every DCS (under DecoderTame for sixel) and every resize, the model of the current code neither panics nor hangs "
                   "and re-establishes the invariant (emu_safe_step, dcs_safe), lifted to all histories by induction (emu_safe_run, session_safe). Draw "
                   "writes only inside the host window (draw_clipped). The PTY goroutine never blocks in postEvent for any number of events and any "
-                  "schedule (events_never_stall_current). The model functions ARE the Go bodies: for ALL 51 control functions (all of csi.go, c0.go, "
+                  "schedule (events_never_stall_current). The model functions ARE the Go bodies: for ALL control functions — 66 translated bodies (all of csi.go, c0.go, "
                   "esc.go incl. decsc/decrc/ris, mode.go sm/rm/decset/decrst/decrqm with every arm, sgr(), osc(), print, resize incl. the reflow loop "
                   "nest, scrollUp/Down) the body translated from the source on every run evaluates to the model function for all states and all "
                   "parameter lists / payloads (body_<fn>). A resize leaves the pen alone (resize_preserves_pen, resize_frame; F112c repaired). The "
                   "statement was false before the repairs F15-F20, F105a-i: Witness/F*.lean prove it from concrete inputs.",
     "level_note": "Proved (all inputs, all sizes, all histories, all schedules): safety + invariant for the model; Draw clipping; event loop "
-                  "deadlock-freedom; model function = translated Go body for all 51 control functions, no transcription-only residue (Gen/TermBodies.lean "
+                  "deadlock-freedom; model function = translated Go body for all 66 bodies (51 functions + the 15 inline arms of the dispatchers that contain code), no transcription-only residue (Gen/TermBodies.lean "
                   "regenerated every run; unknown statements fail bodies_fully_recognised; all_generated_covered); no int64 overflow in 36 of them "
                   "(range_<fn>); osc()/DCS/APC total for arbitrary payloads; pen, cursor shape, modes, tab stops, alternate grid, margins, saved-cursor "
                   "clamps and LastColOk across a resize for every old state (resize_frame). Also tied by Gen/TermModes.lean (dispatch labels with their callee, mode tables, sgr labels, attribute bits, tab stops, "
